@@ -180,7 +180,29 @@ var c15Outcomes = []string{
 	"upstream-error",     // the upstream handler fails
 	"upstream-servfail",  // the upstream answers SERVFAIL
 	"upstream-nxdomain",  // the upstream answers NXDOMAIN
+
+	// Outcomes in which BOTH filtering stages return a result ("request part
+	// + response part").  mainmw.setFilteredResponse lets the request result
+	// decide what the client receives whenever there is one.
+	"req-allowed+resp-ip-blocked",     // allowlist rule of list A; the answer's IP matches a blocking rule of list B
+	"req-allowed+resp-cname-blocked",  // allowlist rule; the answer's CNAME target matches a blocking rule
+	"req-allowed+resp-allowed",        // allowlist rules at both stages
+	"rewritten-resp+resp-ip-blocked",  // $dnsrewrite into a response; the upstream answer matches a response rule
+	"rewritten-cname+resp-ip-blocked", // CNAME rewrite; a response rule exists for the rewritten name's answer
+	"req-blocked+resp-allowed",        // blocked by a request rule; the upstream answer matches an allowlist rule
 }
+
+// c15Parts splits an outcome into what the request stage and what the response
+// stage of the scripted filter do.
+func c15Parts(outcome string) (reqPart, respPart string) {
+	if a, b, ok := strings.Cut(outcome, "+"); ok {
+		return a, b
+	}
+
+	return outcome, outcome
+}
+
+const c15CNAMETarget = "cname-target.test."
 
 // c15Stack is one freshly built production chain.
 type c15Stack struct {
@@ -255,11 +277,16 @@ func (s *c15Stack) upstream() dnsserver.Handler {
 				return rw.WriteMsg(ctx, req, resp)
 			}
 		}
+		owner := q.Name
+		if _, respPart := c15Parts(s.conf.Outcome); own && respPart == "resp-cname-blocked" && q.Qtype != dns.TypeHTTPS {
+			resp.Answer = []dns.RR{vdns.MustRR(q.Name + " 60 IN CNAME " + c15CNAMETarget)}
+			owner = c15CNAMETarget
+		}
 		switch q.Qtype {
 		case dns.TypeA:
-			resp.Answer = []dns.RR{vdns.MustRR(q.Name + " 60 IN A 100.64.1.1")}
+			resp.Answer = append(resp.Answer, vdns.MustRR(owner+" 60 IN A 100.64.1.1"))
 		case dns.TypeAAAA:
-			resp.Answer = []dns.RR{vdns.MustRR(q.Name + " 60 IN AAAA 2001:db8:ffff::1")}
+			resp.Answer = append(resp.Answer, vdns.MustRR(owner+" 60 IN AAAA 2001:db8:ffff::1"))
 		case dns.TypeHTTPS:
 			resp.Answer = []dns.RR{vdns.MustRR(q.Name + ` 60 IN HTTPS 1 . alpn="h2" ipv4hint=100.64.1.2`)}
 		default:
@@ -282,6 +309,18 @@ func c15RespRule(host string) (filter.ID, filter.RuleText) {
 	return "list_resp", filter.RuleText("||" + host + "^$dnstype=~TXT")
 }
 
+func c15RespIPRule() (filter.ID, filter.RuleText) { return "list_resp_ip", "||100.64.1.1^" }
+
+func c15RespCNAMERule() (filter.ID, filter.RuleText) {
+	return "list_resp_cname", filter.RuleText("||" + strings.TrimSuffix(c15CNAMETarget, ".") + "^")
+}
+
+// c15RespAllowRule is the allowlist rule of the response stage (another list
+// and text than the request stage's).
+func c15RespAllowRule(host string) (filter.ID, filter.RuleText) {
+	return "list_resp_allow", filter.RuleText("@@||" + host + "^$important")
+}
+
 func c15AllowRule(host string) (filter.ID, filter.RuleText) {
 	return "custom", filter.RuleText("@@||" + host + "^")
 }
@@ -301,7 +340,8 @@ func (s *c15Stack) filter() *agdtest.Filter {
 			if req.Host != s.host {
 				return nil, nil
 			}
-			switch s.conf.Outcome {
+			reqPart, _ := c15Parts(s.conf.Outcome)
+			switch reqPart {
 			case "req-blocked", "debug-blocked":
 				id, rule := c15ReqRule(s.host)
 
@@ -338,7 +378,21 @@ func (s *c15Stack) filter() *agdtest.Filter {
 			if len(resp.DNS.Question) == 0 || !strings.EqualFold(strings.TrimSuffix(resp.DNS.Question[0].Name, "."), s.host) {
 				return nil, nil
 			}
-			switch s.conf.Outcome {
+			_, respPart := c15Parts(s.conf.Outcome)
+			if respPart == "resp-allowed" && s.conf.Outcome != "resp-allowed" {
+				id, rule := c15RespAllowRule(s.host)
+
+				return &filter.ResultAllowed{List: id, Rule: rule}, nil
+			}
+			switch respPart {
+			case "resp-ip-blocked":
+				id, rule := c15RespIPRule()
+
+				return &filter.ResultBlocked{List: id, Rule: rule}, nil
+			case "resp-cname-blocked":
+				id, rule := c15RespCNAMERule()
+
+				return &filter.ResultBlocked{List: id, Rule: rule}, nil
 			case "resp-blocked":
 				id, rule := c15RespRule(s.host)
 
@@ -640,6 +694,8 @@ type c15Obs struct {
 	Wrote int
 	RCode int
 	Err   string
+	// Answer is the answer section of the response the client got.
+	Answer []string
 
 	Entries []querylog.Entry
 	Bills   []c15Bill
@@ -727,6 +783,9 @@ func (s *c15Stack) serve(q c15Query, id uint16, reqID byte) (o *c15Obs) {
 	o.RCode = -1
 	if o.Wrote > 0 {
 		o.RCode = w.writes[o.Wrote-1].Rcode
+		for _, rr := range w.writes[o.Wrote-1].Answer {
+			o.Answer = append(o.Answer, vdns.RRString(rr, false))
+		}
 	}
 	if err != nil {
 		o.Err = err.Error()
